@@ -199,6 +199,8 @@ def run(prop, tier, seed, workdir):
              "non-trivial = distinct (function, locale, source) with a non-empty source" % mc,
         samples=[dict(call=describe(meta[i])) for i in (1, len(meta) // 2, len(meta)) if i in meta],
         roundtrips=len(rt), exhaustive=False, checker_cmd="tlc GenMbs.tla (INVARIANT Laws); tlc TraceMbs.tla")
+    from . import testtrace
+    testtrace.run_mbs(res, workdir)
     res.assumptions = ["glibc's converters for the C and C.UTF-8 locales are the \"C library\" of the property; TraceMbs.tla first checks that each recorded standard-function result equals Mbs.tla (a mismatch stops the check as an infrastructure error)",
                        "state-dependent encodings do not exist in the two locales: the mbstate is only observable through partial characters, which the string converters never leave behind"]
     return res
